@@ -66,6 +66,8 @@ var (
 		"<query xmlns='urn:example:q'/><other xmlns='urn:example:other'/>",
 		"<![CDATA[<x>]]><query xmlns='urn:example:q'/>",
 		"<a><b><c><d>deep</d></c></b></a>",
+		// stream-level local names outside the stream name space are ordinary elements
+		"<stream xmlns='urn:example:other'><error>e</error><features/></stream><stream/>",
 	}
 	DirtyPayloads = []string{
 		"<!-- c -->",
@@ -227,7 +229,7 @@ func RandStanza(r *hx.Rand) El {
 }
 
 func RandOther(r *hx.Rand) El {
-	e := El{Name: pick(r, []string{"a", "foo", "features", "open", "iq", "x:y"})}
+	e := El{Name: pick(r, []string{"a", "foo", "features", "open", "iq", "x:y", "stream", "error"})}
 	switch e.Name {
 	case "open":
 		e.Attrs = []attrKV{{"xmlns", "urn:ietf:params:xml:ns:xmpp-framing"}}
